@@ -1,0 +1,64 @@
+// MIT License
+//
+// Copyright (c) 2022-2026 GoAkt Team
+//
+// Permission is hereby granted, free of charge, to any person obtaining a copy
+// of this software and associated documentation files (the "Software"), to deal
+// in the Software without restriction, including without limitation the rights
+// to use, copy, modify, merge, publish, distribute, sublicense, and/or sell
+// copies of the Software, and to permit persons to whom the Software is
+// furnished to do so, subject to the following conditions:
+//
+// The above copyright notice and this permission notice shall be included in all
+// copies or substantial portions of the Software.
+//
+// THE SOFTWARE IS PROVIDED "AS IS", WITHOUT WARRANTY OF ANY KIND, EXPRESS OR
+// IMPLIED, INCLUDING BUT NOT LIMITED TO THE WARRANTIES OF MERCHANTABILITY,
+// FITNESS FOR A PARTICULAR PURPOSE AND NONINFRINGEMENT. IN NO EVENT SHALL THE
+// AUTHORS OR COPYRIGHT HOLDERS BE LIABLE FOR ANY CLAIM, DAMAGES OR OTHER
+// LIABILITY, WHETHER IN AN ACTION OF CONTRACT, TORT OR OTHERWISE, ARISING FROM,
+// OUT OF OR IN CONNECTION WITH THE SOFTWARE OR THE USE OR OTHER DEALINGS IN THE
+// SOFTWARE.
+
+//go:build verif
+
+package breaker
+
+// VerifShape is a read-only projection of a CircuitBreaker's internal state.
+// Verification harness only.
+type VerifShape struct {
+	State      State
+	OpenUntil  int64 // unix nano, 0 when never opened
+	Sem        int   // half-open tokens currently held (len(semCh))
+	Cursor     int
+	LastUpdate int64 // unix nano
+	Succ       []uint64
+	Fail       []uint64
+	Start      []int64 // unix nano, per ring slot
+}
+
+// VerifShape returns the current state, the open deadline, the number of
+// half-open tokens held and the rolling window's ring as it is stored (no
+// advance is performed). Verification harness only.
+func (b *CircuitBreaker) VerifShape() VerifShape {
+	bw := b.buckets
+	bw.mu.Lock()
+	defer bw.mu.Unlock()
+
+	s := VerifShape{
+		State:      b.State(),
+		OpenUntil:  b.openUntil.Load(),
+		Sem:        len(b.semCh),
+		Cursor:     bw.cursor,
+		LastUpdate: bw.lastUpdate,
+		Succ:       make([]uint64, len(bw.buf)),
+		Fail:       make([]uint64, len(bw.buf)),
+		Start:      make([]int64, len(bw.buf)),
+	}
+
+	for i := range bw.buf {
+		s.Succ[i], s.Fail[i], s.Start[i] = bw.buf[i].succ, bw.buf[i].fail, bw.buf[i].start
+	}
+
+	return s
+}
